@@ -51,8 +51,16 @@ def getItems (j : Json) : Except String Items := do
   | .dict kvs => pure kvs
   | _ => throw "md must be a dict"
 
-/-- sum of the magnitudes of all numbers in a value (kept for Driver.C17) -/
-def sumAbs (v : PyVal) : Nat := Validate.sumAbs v
+/-- sum of the magnitudes of all numbers in a value (`int`s incl. `bool`s and truncated finite
+    `float`s, keys included); used by Driver.C17's correspondence hypothesis.  (It was part of the
+    model while finding D07j was open; C07 has no bound on numbers any more.) -/
+partial def sumAbs : PyVal → Nat
+  | .int i => i.natAbs
+  | .bool b => if b then 1 else 0
+  | .float (.fin t _ _) => t.natAbs
+  | .list l | .tuple l => (l.map sumAbs).foldl (· + ·) 0
+  | .dict kvs => (kvs.map fun (k, v) => sumAbs k + sumAbs v).foldl (· + ·) 0
+  | _ => 0
 
 /-- nesting depth of a value -/
 partial def depth : PyVal → Nat
@@ -102,10 +110,9 @@ def eval (j : Json) : Except String Json := do
                ("modelSound", modelSound), ("implSound", implSound),
                ("hyp", jbool (depth (.dict md) ≤ 100)),
                ("wf", jbool (Codec.wf (.dict md))),
-               ("numbersSmall", jbool (numbersSmall md)),
                ("hypMagnet", jbool (magnetTailOk urlOk md)),
                ("filesIsDict", jbool filesIsDict),
-               ("hypThm", jbool (outsideD07fD07j fs md))]
+               ("hypThm", jbool (outsideD07f fs md))]
 
 /-- op `c07.sound`: {bytes, urls} ↦ the executable specification on arbitrary bytes -/
 def sound (j : Json) : Except String Json := do
